@@ -33,7 +33,11 @@ fn build_from_parsed(
     common_context: &CommonContext,
 ) -> Result<BuildResult, Error> {
     #[cfg(feature = "verif")]
-    crate::verif::emit("\"ev\":\"begin\"".to_string());
+    crate::verif::emit(format!(
+        "\"ev\":\"begin\",\"avr8l\":{},\"ram_start\":{}",
+        common_context.get_device().is_avr8l(),
+        common_context.get_device().ram_start
+    ));
 
     let passed_0 = pass0(parsed, common_context)?;
 
